@@ -573,6 +573,23 @@ func c35Gen(g *Gen) {
 		}
 		g.Case(lines...)
 	}
+	// table capacity: fill all ShmMaxAllocs (4094) entries with the smallest batches, nothing freed;
+	// the next write must be refused and every slot must still read back; free one, write one more
+	for i, nc := 0, g.N(1, 6); i < nc; i++ {
+		cols := Pick(r, []string{"i8", "bool", "i8;^k=v", "u8", "dict8,str", "struct1,dict8,str"})
+		seed := r.Intn(1000)
+		over := r.Range(1, 12)
+		lines := []string{"new 3000000",
+			fmt.Sprintf("bulk %s 1 %d %d", cols, seed, 4094-r.Intn(3)),
+			fmt.Sprintf("bulk %s 1 %d %d", cols, seed, 3+over),
+			"verify",
+			fmt.Sprintf("bulk %s 1 %d 1", cols, seed),
+			fmt.Sprintf("free %d", 65536),
+			"verify",
+			fmt.Sprintf("bulk %s 1 %d 2", cols, seed),
+			"verify"}
+		g.Case(lines...)
+	}
 	// sequences of batches on ONE segment whose schemas are pairwise "almost equal": same column
 	// names and type ids, different field metadata / schema metadata / fixed-size-binary width
 	// (everything Schema.Fingerprint() ignores), written and read back one after the other
@@ -728,9 +745,21 @@ func c35First(ks, vs []string, k string) (string, bool) {
 	return "", false
 }
 
+type c35BulkSlot struct {
+	off   uint64
+	ln    int
+	batch arrow.RecordBatch
+}
+
 func c35Exec(c *Case) {
 	var seg *vgirpc.ShmSegment
 	var ptrs []*c35Ptr
+	var bulk []c35BulkSlot // slots written by `bulk`, still allocated
+	defer func() {
+		for _, b := range bulk {
+			b.batch.Release()
+		}
+	}()
 	defer func() {
 		for _, p := range ptrs {
 			p.pointer.Release()
@@ -1078,8 +1107,64 @@ func c35Exec(c *Case) {
 			}
 			b.Release()
 			c.Out(fmt.Sprintf("ptr %d %s %s", rows, f[3], dec), obs)
+		case "bulk":
+			// table-capacity cases: <count> writes of the same small batch in a row, nothing freed
+			rows, _ := strconv.Atoi(f[2])
+			seed, _ := strconv.ParseUint(f[3], 10, 64)
+			count, _ := strconv.Atoi(f[4])
+			b, err := c35Batch(f[1], rows, seed, arrow.Metadata{}, false)
+			if err != nil {
+				panic(err)
+			}
+			ml := fmt.Sprintf("bulk %s %d %s %d", f[1], vgirpc.VerifC35EstimateSerializedSize(b), X(c35FullStream(b)), count)
+			okN, first, last := 0, "-", "-"
+			for i := 0; i < count; i++ {
+				off, ln, ok, werr := seg.AllocateAndWrite(b)
+				if werr != nil || !ok {
+					continue
+				}
+				okN++
+				if first == "-" {
+					first = strconv.FormatUint(off, 10)
+				}
+				last = strconv.FormatUint(off, 10)
+				b.Retain()
+				bulk = append(bulk, c35BulkSlot{off, ln, b})
+			}
+			b.Release()
+			c.Stat("bulk")
+			tab := seg.VerifTable()
+			if len(tab) > vgirpc.ShmMaxAllocs {
+				c.Oracle("table-over-capacity", fmt.Sprintf("%q: the table holds %d entries, the header has room for %d", l, len(tab), vgirpc.ShmMaxAllocs))
+			}
+			c.Out(ml, fmt.Sprintf("bulk ok=%d first=%s last=%s slots=%d h=%s", okN, first, last, len(tab), c35Fnv(seg.VerifHeaderPrefix())))
+		case "verify":
+			// EVERY slot written by bulk and not freed since must still read back identical
+			good := 0
+			for _, b := range bulk {
+				got, rerr := seg.ReadBatch(b.off, b.ln, b.batch.Schema())
+				if rerr == nil && c35SchemaStrictEqual(got.Schema(), b.batch.Schema()) && array.RecordEqual(got, b.batch) {
+					good++
+				} else {
+					if len(c.oracle) < 5 { // report the first few only
+						c.Oracle("live-slot-corrupted", fmt.Sprintf("%q: slot [%d,+%d) no longer reads back the batch written there (err=%v)", l, b.off, b.ln, rerr))
+					}
+				}
+				if got != nil {
+					got.Release()
+				}
+			}
+			c.Stat("verify")
+			c.Out(l, fmt.Sprintf("live=%d", good))
 		case "free":
 			n, _ := strconv.ParseUint(f[1], 10, 64)
+			for i, b := range bulk {
+				if b.off == n {
+					b.batch.Release()
+					bulk = append(bulk[:i], bulk[i+1:]...)
+					break
+				}
+			}
 			if err := seg.FreeOffset(n); err != nil {
 				c.Stat("free-miss")
 				c.Out(l, "err "+hdr())
